@@ -193,6 +193,16 @@ def obligations(n, excl, with_orders=True, with_relabel=True, sep_na=None, order
                 if q not in (p, c):
                     child.append(z3.And(qual, st.ep[p] == q, ids[c] != ids[q]))
     obs.append(("fg_child", "a co-resident childless child under 25 without own partner shares the family unit of its parent(s) and their partner", pre + [z3.Or(child)], st))
+    # exactness: two persons share a family unit only if a chain of partner links and qualified-child links joins them
+    # (qualified child, weak form: co-resident, under 25, no own children ANYWHERE in the data)
+    def link(x, y):
+        qc = lambda c, q: z3.And(st.is_parent(q, c), st.hh[c] == st.hh[q], st.alt[c] < 25, z3.Not(st.has_children(c)))   # noqa: E731
+        return z3.Or(st.ep[x] == y, st.ep[y] == x, qc(x, y), qc(y, x))
+    rel = [[(z3.BoolVal(True) if x == y else link(x, y)) for y in range(n)] for x in range(n)]
+    for _ in range(max(n - 2, 0)):
+        rel = [[z3.Or([z3.And(rel[x][k], (z3.BoolVal(True) if k == y else link(k, y))) for k in range(n)]) for y in range(n)] for x in range(n)]
+    obs.append(("fg_only", "persons share a family unit only through partner links and qualified-child links (co-resident, under 25, no own children)",
+                pre + [z3.Or([z3.And(ids[a] == ids[b], z3.Not(rel[a][b])) for a in range(n) for b in range(a + 1, n)])], st))
     obs.append(("fg_nopath", "no pointer path => different family units; family unit within the household",
                 pre + [z3.Or([z3.And(ids[a] == ids[b], z3.Or(z3.Not(connected(st, a, b)), st.hh[a] != st.hh[b])) for a in range(n) for b in range(a + 1, n)])], st))
     if only_orders:
@@ -265,6 +275,18 @@ def reproduces(name, vals, n, sep_na=None):
                 if ids[c] != ids[p] or (ep[p] >= 0 and ids[c] != ids[ep[p]]):
                     return True
         return False
+    if name == "fg_only":
+        import networkx as nx
+        g = nx.Graph()
+        g.add_nodes_from(range(n))
+        has_kids = lambda c: any(c in (e1[k], e2[k]) for k in range(n) if k != c)   # noqa: E731
+        for i in range(n):
+            if ep[i] >= 0:
+                g.add_edge(i, ep[i])
+            for q in (e1[i], e2[i]):
+                if q >= 0 and hh[q] == hh[i] and alt[i] < 25 and not has_kids(i):
+                    g.add_edge(i, q)
+        return any(ids[a] == ids[b] and not nx.has_path(g, a, b) for a in range(n) for b in range(a + 1, n))
     if name == "fg_nopath":
         import networkx as nx
         g = nx.Graph()
